@@ -324,7 +324,8 @@ value-initialised object of `size` bytes: `len = MIN(size, _storage.size() -
 cursor); memcpy(data, _storage.data() + cursor, len); cursor += len;` — the
 bytes of the object that are not overwritten stay zero (`T obj{}`). -/
 def loadS (rem : List Byte) (size : Nat) : Option (List Byte × List Byte) :=
-  let len := min size rem.length
+  -- MIN(size, remaining), computed without walking the whole remaining input
+  let len := (rem.take size).length
   match readN len rem with
   | some (bs, r) => some (bs ++ List.replicate (size - len) 0#8, r)
   | none => none
